@@ -320,6 +320,28 @@ class Model:
                     return ("range", 0, vals[0] + 1)
                 if nm == "RangeFull":
                     return ("range", 0, None)
+        if o[0] == "field" and isinstance(o[1], tuple):
+            # field of a named constant struct / tuple (`const COMPRESSED: Framing = Framing { unit: 4, .. }`): from the AST
+            base = strip_refs(o[1])
+            if base[0] == "const" and base[1] is None and isinstance(base[2], str) and "::" in base[2]:
+                cs = self.ctx.ast.const(base[2].split("::")[-1])
+                if len(cs) == 1:
+                    v = cs[0][3]["value"]
+                    e = None
+                    if v.get("k") == "Struct":
+                        for f in v.get("fields", []):
+                            if f.get("member") == o[3] or str(f.get("member")) == str(o[2]):
+                                e = f.get("e")
+                    elif v.get("k") in ("Tuple", "Array") and isinstance(o[2], int) and o[2] < len(v.get("elems", [])):
+                        e = v["elems"][o[2]]
+                    if e is not None:
+                        from astq import eval_int
+                        try:
+                            iv = eval_int(e)
+                        except Exception:
+                            iv = None
+                        if iv is not None:
+                            return iv
         if o[0] == "const" and o[1] is None and isinstance(o[2], str) and "::" in o[2] and "[u8" in str(o[3]):
             cs = self.ctx.ast.const(o[2].split("::")[-1])
             if len(cs) == 1:
